@@ -300,6 +300,9 @@ PROPS["C12"] = {
         "pkg": "pkg/packet",
         "tests": [T("TestC12Sender", {"checks": 400, "shards": 2}, {"checks": 6000, "shards": 8})],
     }, {
+        "pkg": "pkg/scan",
+        "tests": [T("TestC12ResultChan", {"checks": 24, "shards": 8, "gomaxprocs": [2, 4, 16]}, {"checks": 300, "shards": 16, "gomaxprocs": [2, 4, 16]})],
+    }, {
         "pkg": "command",
         "tests": [T("TestC12Netns", {"checks": 8, "shards": 8}, {"checks": 150, "shards": 12})],
     }, {
